@@ -286,6 +286,68 @@ def extra_scenarios(ctx):
                     good, detail = False, "raised %s: %s" % (type(e).__name__, str(e)[:100])
                 if not good:
                     ctx.fail("pickle:graph", "PickleFileStore (%s) with a picklable value that has %s: %s" % (via, name, detail), {"value": name, "via": via})
+        # (a3) a reader that overlaps writers never sees anything but a value that was written (the file is replaced atomically)
+        import threading
+        for cls, short, long_ in ((st.BinaryFileStore, b"short-value", b"L" * 300000), (st.TextFileStore, "short", "long " * 50000)):
+            pth = os.path.join(d, "torn_%s.dat" % cls.__name__)
+            store = cls(pth)
+            store.write(short)
+            stop = threading.Event()
+
+            def writer():
+                k = 0
+                while not stop.is_set():
+                    store.write(long_ if k % 2 == 0 else short)
+                    k += 1
+            th = threading.Thread(target=writer, daemon=True)
+            th.start()
+            torn = None
+            try:
+                for _ in range(ctx.n(3000, 30000)):
+                    got = cls(pth).read()
+                    if got != short and got != long_:
+                        torn = got
+                        break
+            finally:
+                stop.set()
+                th.join(10)
+            ctx.case(("c12-overlapping-read", cls.__name__))
+            if torn is not None:
+                ctx.fail("torn-read", "%s.read() overlapping writes of two values returned %d %s that were never written (a prefix: %r...)"
+                         % (cls.__name__, len(torn), "bytes" if isinstance(torn, bytes) else "characters", torn[:12]), {"store": cls.__name__})
+        # (a4) the device refuses part of the data (file size limit): the write fails and the previous value stays
+        pid = os.fork()
+        if pid == 0:
+            code = 0
+            try:
+                import resource
+                big = b"B" * (1 << 20) + b"tail" * 3000
+                for via in ("direct", "mounted"):
+                    target = st.BinaryFileStore(os.path.join(d, "quota_%s.bin" % via)) if via == "direct" else Remote(st.BinaryFileStore, lambda: None)
+                    target.write(b"previous")
+                    resource.setrlimit(resource.RLIMIT_FSIZE, (1 << 20, resource.RLIM_INFINITY))
+                    try:
+                        target.write(big)
+                        outcome = "returned"
+                    except OSError:
+                        outcome = "oserror"
+                    finally:
+                        resource.setrlimit(resource.RLIMIT_FSIZE, (resource.RLIM_INFINITY, resource.RLIM_INFINITY))
+                    got = target.read()
+                    if not ((outcome == "oserror" and got == b"previous") or (outcome == "returned" and got == big)):
+                        code |= 1 if via == "direct" else 2
+            except BaseException:       # noqa
+                code = 8
+            os._exit(code)
+        _, status = os.waitpid(pid, 0)
+        code = os.waitstatus_to_exitcode(status)
+        ctx.case(("c12-size-limit",))
+        if code in (1, 2, 3):
+            ctx.fail("short-write", "BinaryFileStore (%s) under a file-size limit: write() returned normally but read() does not return the value written "
+                     "(nor was the previous value kept)" % ("direct" if code == 1 else "through a MountedStore" if code == 2 else "direct and mounted"),
+                     {"child_exit": code})
+        elif code != 0:
+            ctx.count("size_limit_scenario_unavailable", code)
         # (b) written over existing content
         for name, store, value in (("touch", st.TouchFileStore, None), ("text", st.TextFileStore, "new"), ("binary", st.BinaryFileStore, b"new"),
                                    ("json", st.JsonFileStore, {"a": 1}), ("pickle", st.PickleFileStore, (1, 2))):
